@@ -38,7 +38,17 @@ def gen_cases(tier):
     cases = []
     for i in range(n):
         r = random.Random(rng.getrandbits(64))
-        cases.append(c01.make_case(r, tier, thermal_p=0.35, mod_p=0.25, maxdeps=2, file_p=0.2, big=(tier == "thorough" and i % 5 == 0)))
+        c = c01.make_case(r, tier, thermal_p=0.35, mod_p=0.25, maxdeps=2, file_p=0.2, big=(tier == "thorough" and i % 5 == 0))
+        if c["net"]["reactions"] and r.random() < 0.3:
+            # rate modifiers on reactions whose file index is far from their position in the rate array: the override must
+            # still address k[position]
+            base = r.choice([2, 50, 5000])
+            for j, rc in enumerate(c["net"]["reactions"]):
+                rc["idx"] = base + 3 * j
+            c["indexed"] = True
+            keys = r.sample([rc["idx"] for rc in c["net"]["reactions"]], min(2, len(c["net"]["reactions"])))
+            c["rate_modifier"] = {str(k): [repr(v), v] for k, v in zip(keys, chem.distinct_alphas(r, len(keys)))}
+        cases.append(c)
     # the empty network (NEQUATIONS forced to 1, dummy reaction, NNZ 0)
     cases.append({"net": {"species": [], "reactions": [], "required": []}, "alphas": [], "entry": "api",
                   "ys": [{"__TGAS__": 1e4}], "ks": [[1.25]], "special": "empty"})
